@@ -46,6 +46,7 @@ CFaultyKeepsPrevious(o, b) == \A x \in ObsLists : OFailing(x) => o.served[x] = b
 COthersPreviousOrNew(o, b) == \A x \in ObsLists : o.served[x] \in {b.served[x], remote[x]} /\ o.served[x] >= 0
 CValidIndexEntriesApplied(o, b) ==
     rf["ridx"] \in {"ok", "inv", "invown"} /\ rf["sidx"] \in {"ok", "inv"} /\ rf["ss"] = "ok"
+    /\ (\A x \in RLs : rf[x] # "cancel")
     => /\ o.applied
        /\ \A x \in RLs : rf[x] = "ok" /\ ~OFailing(x) => o.served[x] = remote[x]
        /\ o.served["sidx"] = remote["sidx"]
